@@ -31,6 +31,7 @@ CHECKS = {
         'unproved': ['output printing (OutputPrinter)', 'OS file semantics (truncation, rotation)'],
     },
     'C16': {
+    'grid': {'sets': ['c16'], 'bound': 'every ordered pair and triple over 12 REAL, 9 INT, 7 TEXT and 4 TIMESTAMP values, observed through SQL: trichotomy, antisymmetry, transitivity of WHERE comparisons, and agreement of GROUP BY / DISTINCT / self-join with `=` (about 3450 cases)'},
         'verus_units': [],
         'technique': 'Kani/CBMC loop-free full-domain harnesses (complete proofs) on the real Float and derived Value impls in a scratch copy of the crate; counterexamples replayed on the real code',
         'claim': 'Proof (complete, not bounded) over all f64 bit patterns, i64 and bool that Float and the scalar variants of Value (NULL, INT, REAL, BOOLEAN) form a total order consistent with ==, partial_cmp and Hash; numeric order for INT and for REAL. INT-vs-REAL numeric ordering fails and is a known finding. Non-scalar variants are not covered.',
@@ -263,6 +264,7 @@ CHECKS['C05'] = {
 }
 
 CHECKS['C17'] = {
+    'grid': {'sets': ['c17'], 'bound': 'OutputPrinter::print driven with tables of 1..4 columns and 0..3 rows (several tables per printer, an empty one first) built from 33 values (64-bit ends, REAL edge values, TEXT with quotes / delimiters / control / non-ASCII characters, arrays up to 300 elements, NULLs), JSON parsed back and compared, CSV and text for delimiter-free values, interactive and single-result mode; 12 query/format combinations through FileExecutor (about 2500 cases)'},
     'verus_units': ['output'],
     'clause_prefixes': ['c17'],
     'technique': 'contract-based deductive verification (Verus) of OutputPrinter::with_printer / print and Value::json_value extracted from /repo; the text of a record (format!, join, serde_json::to_string) is an uninterpreted function of the row',
